@@ -187,7 +187,9 @@ claim("C10", "Coq proof (warm-start position by name, list assembly, split round
 claim("C15", "Coq proof (driver facts for every objective; tracker facts; totality of the hill-climbing evaluate) + fault enumeration over score masks",
       "Theorems (Coq, closed): C15_nan_never_best and C15_no_rows_lost (driver, every optimizer, every pattern of non-finite scores), "
       "C15_valid_lists_exact, C15_nan_never_adopted, C15_hc_evaluate_total (never fails for any score), "
-      "C15_family_keeps_proposing_legal_points (the step contract is score independent). " + FAM + "Fault enumeration: per optimizer "
+      "C15_family_keeps_proposing_legal_points (the step contract is score independent); for the Gallina definitions REGENERATED "
+      "from the source of the tracker layer on every run (translate_core.py -> generated/TrackerGen.v, proved to refine the model "
+      "in proofs/TrackerTie.v): C15_source_tracker_never_raises, C15_source_valid_lists_finite. " + FAM + "Fault enumeration: per optimizer "
       "(all 22) all-invalid prefixes of every length for NaN / +inf / -inf and random mixtures (thorough: all 4^4 masks); no raise, no "
       "lost step, best = best non-NaN score, legal points afterwards. Known findings F-D12a..e (crash when too few finite scores exist "
       "by the end of initialisation: DownhillSimplex, Powell, Lipschitz, Forest, PatternSearch).",
@@ -197,7 +199,10 @@ claim("C19", "Coq proof (history-indexed grounding invariant through the driver;
       "Theorems (Coq, closed): C19_family_step_grounded / C19_family_grounded - for the seven modelled optimizers, any draws and any "
       "(also non-finite) scores, after every search() step the tracked current and best pairs and the valid lists consist of pairs "
       "that were really evaluated (position with ITS score); C19_driver_lift for any optimizer with such an invariant; "
-      "C19_best_monotone, C19_current_monotone_greedy. " + FAM + "The monitor checks grounding and monotonicity after every step for all "
+      "C19_best_monotone, C19_current_monotone_greedy; and for the Gallina definitions REGENERATED from the source on every run "
+      "(search_tracker.py, evaluate_init, BaseOptimizer / HillClimbingOptimizer / Spiral evaluate): C19_source_hc_evaluate_refines "
+      "(refinement of the model for all states) and C19_source_tracker_grounded (every reachable state of the translated code). "
+      + FAM + "The monitor checks grounding and monotonicity after every step for all "
       "optimizers and every population member (lattice constraints to force the fallback paths).",
       TRUST, "DESIGN.md section 5, C19")
 
